@@ -67,9 +67,10 @@ func (j *c04Judge) visit(acc *dtAcc, vr *dtVariant, v *dtVal, pk bool) {
 		j.viol("panic|"+enc.panic.Frame, vr, v, "", fmt.Sprintf("Bytes(%s) panicked: %s", dtDescribe(v), enc.panic.Value), "value", nil)
 		return
 	case enc.err != nil:
-		// the library refuses to send this type/value: counted, not judged
+		// every variant here has a Go mapping and the value lies in the
+		// type's domain: a refusal is a failed round trip
 		acc.counts["encode_refused/"+vr.Name]++
-		j.c.R.SetAdd("encode_refusals", vr.Name+": "+dtTrimErr(enc.err))
+		j.viol("encode-refused", vr, v, reg, fmt.Sprintf("Bytes(%s) returns an error for a value of the type's domain: %s", dtDescribe(v), dtTrimErr(enc.err)), "value", nil)
 		return
 	}
 	dec := dtLibGoValue(vr, enc.bs)
@@ -249,6 +250,17 @@ func (j *c04Judge) null(acc *dtAcc, vr *dtVariant, v *dtVal) {
 	default:
 		if ok, why := dtSameValue(vr, v, dec.val, dtCmpExact, 0); !ok {
 			j.viol("null", vr, v, "decode", "GoValue(zero bytes): "+why, "null", nil)
+		} else if dec.val != nil {
+			// the library's own NULL value (a typed one for decimals) must
+			// encode to zero length again
+			acc.evals++
+			re := dtLibBytes(vr, dec.val, dtLengthArg(vr, v))
+			switch {
+			case re.panic != nil:
+				j.viol("panic|"+re.panic.Frame, vr, v, "", "Bytes(the NULL value GoValue returned) panicked: "+re.panic.Value, "null", nil)
+			case re.err != nil || len(re.bs) != 0:
+				j.viol("null", vr, v, "re-encode", fmt.Sprintf("Bytes(the NULL value GoValue returned, %T) = %s, %v; want zero length", dec.val, dtHex(re.bs), re.err), "null", re.bs)
+			}
 		}
 	}
 	f := dtRefField(vr, v, vr.Len)
@@ -325,7 +337,6 @@ func runC04(c *Ctx) {
 		"'on the tick grid' is judged as: the decoded value re-encodes to the same bytes",
 		"bare numeric bytes carry no precision/scale: GoValue(Bytes(v)) is compared by sign and unscaled integer, the PARAMS/ROW legs also by precision and scale",
 		"NULL of the text-pointer family (zero-length text pointer) is not generated: the layout of what follows is C06/C10 ground",
-		"types for which Bytes returns an error are counted (encode_refused/*), not judged",
 		"UNICHAR/UNIVARCHAR have no data type token of their own in asetypes and are not covered",
 		"values of the 4-byte-length types (LONGCHAR, LONGBINARY, TEXT, IMAGE, UNITEXT, XML) are sampled up to 100 000 bytes (quick) / 4 MiB (thorough), not up to 2^32-1; zero-length strings are not generated (they are NULL on the wire)",
 		"the reference-row leg for the non-text-pointer types judges the library's decoding of a server's row (format + length prefix + reference data bytes)",
